@@ -190,6 +190,13 @@ TWaitUncommitted ==
               THEN [dirty EXCEPT !.flushed = TRUE] ELSE dirty
   /\ UNCHANGED <<pend, commd, lo, metaop, payload, wopen, wCreated, sorted, kf>>
 
+\* a second Index instance on the same directory is opened / the next writer will be created
+\* through the other instance (no writer is open): nothing changes - an index is its directory
+TSecondInstance ==
+  /\ \/ Ev.ev = "open_second" /\ Ev.ok
+     \/ Ev.ev = "switch_index" /\ Ev.ok /\ ~wopen
+  /\ UNCHANGED <<pend, commd, lo, metaop, payload, wopen, wCreated, dirty, sorted, kf>>
+
 TCall ==
   /\ Ev.ev = "call"
   /\ UNCHANGED <<pend, commd, lo, metaop, payload, wopen, wCreated, dirty, sorted, kf>>
@@ -218,7 +225,7 @@ TNext ==
   /\ l <= Len(Rec) /\ l' = l + 1
   /\ \/ TReset \/ TNewWriter \/ TDropWriter \/ TAdd \/ TDel \/ TRun \/ TDeleteAll \/ TCommit
      \/ TRollback \/ TMerge \/ TWaitMerges \/ TGc \/ TObserve \/ TEnd \/ TNoWriter
-     \/ TCall \/ TCrashImage \/ TMergeUncommitted \/ TWaitUncommitted
+     \/ TCall \/ TCrashImage \/ TMergeUncommitted \/ TWaitUncommitted \/ TSecondInstance
   /\ calling' = CASE Ev.ev = "call" -> TRUE
                   [] Ev.ev \in {"commit", "prepare_commit", "prepare_abort", "reset"} -> FALSE
                   [] OTHER -> calling
